@@ -404,6 +404,68 @@ class NumHooks(TokenStreamHooks):
         return ev[0] == 'call' and ev[1] in ('self.pushToken', 'self.pushTokens')
 
 
+class BracketHooks(NumHooks):
+    """NumHooks that also follow the enable level of ParameterCommand (by the function a call resolves to) and note that level at
+    every read from the expanded stream."""
+
+    def _note(self, state, what):
+        state.env['__reads_at'] = state.env.get('__reads_at', ()) + ((what, state.env.get('__plevel', 0)),)
+
+    def call(self, interp, node, fname, args, kwargs, state):
+        last = fname.rsplit('.', 1)[-1]
+        if last in ('enable', 'disable'):
+            info = interp.resolve_callee(node, state)
+            if fname.endswith(('ParameterCommand.enable', 'ParameterCommand.disable')) or \
+               (info is not None and info.cls is not None and info.cls.name == 'ParameterCommand' and info.name in ('enable', 'disable')):
+                state.env['__plevel'] = state.env.get('__plevel', 0) + (1 if last == 'enable' else -1)
+                return A.NONE
+        if fname == 'self.readOptionalSigns' or (fname in self.READERS and fname != 'self.' + self.own) or fname in ('self.readKeyword', 'self.readSequence'):
+            self._note(state, fname[5:])
+        return NumHooks.call(self, interp, node, fname, args, kwargs, state)
+
+    def iter_item(self, interp, loop, k, state):
+        r = NumHooks.iter_item(self, interp, loop, k, state)
+        if r is not None and text(loop.iter).replace(' ', '') in ('self', 'iter(self)'):
+            self._note(state, 'token')
+        return r
+
+    def should_inline(self, fname, node, info):
+        return A.private_only(fname, node, info) or (info is not None and info.cls is not None and info.cls.name == 'ParameterCommand'
+                                                     and info.name not in ('enable', 'disable'))
+
+
+def bracket_rules(chk, m, rid):
+    R = chk.rule(rid, 'numbers are read with the registers switched off: in readInteger, readDimen, readGlue, readMuGlue and '
+                 'readUnitOfMeasure, interpreted on a scripted stream, every read from the expanded stream - the signs, the tokens, the '
+                 'sub-readers - happens while ParameterCommand is disabled (a register met there would otherwise run as an assignment), '
+                 'and the level is back where it was on return', 5)
+    TeX = m.cls('plasTeX.TeX', 'TeX')
+    for fname, stream, env in (('readInteger', [ch('4'), ch('x', 11)], {'optspace': True}), ('readDimen', [ch('1')], {'units': ['pt']}),
+                               ('readGlue', [ch('1')], {}), ('readMuGlue', [ch('1')], {}), ('readUnitOfMeasure', [ch('p', 11)], {'units': ['pt']})):
+        fn = m.find_method(TeX, fname)
+        need(fn is not None, 'TeX.%s not found' % fname)
+        chk.analysed(fn)
+        h = BracketHooks(m, TeX, stream, fname)
+        it = A.Interp(model=m, scope=fn, hooks=h, max_iter=len(stream) + 2, exc_edges=False, inline=3, heap=True, precise_exc=True)
+        try:
+            outs = it.run_function(fn, env=dict(env))
+        except AnalysisError as e:
+            chk.undecided(R, '%s reads under the bracket' % fname, str(e), chk.where(fn))
+            continue
+        chk.paths += len(outs)
+        got = set()
+        for kind, s2, v in outs:
+            if kind != 'return':
+                continue
+            reads = s2.env.get('__reads_at', ())
+            outside = tuple(sorted({w for w, lv in reads if lv >= 0}))
+            got.add(('reads: %d' % len(reads) if reads else 'nothing read', outside, s2.env.get('__plevel', 0)))
+        bad = {g for g in got if g[1] or g[2] != 0 or g[0] == 'nothing read'}
+        chk.decide(R, '%s reads under the bracket' % fname, {('ok',)} if got and not bad else bad or {('no path',)}, {('ok',)},
+                   '%s: (reads, reads made while parameters are enabled, level on return) = %s; every read of the expanded stream must '
+                   'happen between disable() and enable()' % (fname, sorted(bad)), chk.where(fn))
+
+
 def number_rules(chk, m, rid):
     R = chk.rule(rid, 'numeric scanners on concrete character tokens (abstract interpretation): readInteger reads decimal, octal '
                  "('), hexadecimal (\") and alphabetic (`) constants and registers, readDecimal fractions, readDimen/readGlue/"
